@@ -121,6 +121,14 @@ func CreateCallback(c gocoro.Coroutine[*t_aio.Submission, *t_aio.Completion, any
 					Timeout:   r.CreateCallback.Timeout,
 					CreatedOn: createdOn,
 				}
+			} else {
+				// No row was inserted: either the callback already exists or the promise was
+				// completed after it was read. Read the promise again so that the response never
+				// shows a stale pending promise for which no callback is registered.
+				p, err = rereadPromise(c, r.Tags, r.CreateCallback.PromiseId)
+				if err != nil {
+					return nil, err
+				}
 			}
 		}
 
@@ -147,6 +155,45 @@ func CreateCallback(c gocoro.Coroutine[*t_aio.Submission, *t_aio.Completion, any
 
 	util.Assert(res != nil, "response must not be nil")
 	return res, nil
+}
+
+// rereadPromise reads a promise that is known to exist.
+func rereadPromise(c gocoro.Coroutine[*t_aio.Submission, *t_aio.Completion, any], tags map[string]string, id string) (*promise.Promise, error) {
+	completion, err := gocoro.YieldAndAwait(c, &t_aio.Submission{
+		Kind: t_aio.Store,
+		Tags: tags,
+		Store: &t_aio.StoreSubmission{
+			Transaction: &t_aio.Transaction{
+				Commands: []*t_aio.Command{
+					{
+						Kind: t_aio.ReadPromise,
+						ReadPromise: &t_aio.ReadPromiseCommand{
+							Id: id,
+						},
+					},
+				},
+			},
+		},
+	})
+	if err != nil {
+		slog.Error("failed to read promise", "id", id, "err", err)
+		return nil, t_api.NewError(t_api.StatusAIOStoreError, err)
+	}
+
+	util.Assert(completion.Store != nil, "completion must not be nil")
+	util.Assert(len(completion.Store.Results) == 1, "completion must have one result")
+
+	result := completion.Store.Results[0].ReadPromise
+	util.Assert(result != nil, "result must not be nil")
+	util.Assert(result.RowsReturned == 1, "promise must exist")
+
+	p, err := result.Records[0].Promise()
+	if err != nil {
+		slog.Error("failed to parse promise record", "record", result.Records[0], "err", err)
+		return nil, t_api.NewError(t_api.StatusAIOStoreError, err)
+	}
+
+	return p, nil
 }
 
 func callbackId(rootPromiseId, promiseId string) string {
